@@ -477,3 +477,19 @@ Qed.
 
 Lemma owns_meaning m s : wf s -> owns m s <-> (consistent m /\ NoDup (muri_blocks m) /\ incl (muri_blocks m) (live_ids s)).
 Proof. intros W. unfold owns. rewrite (holds_incl m s W). tauto. Qed.
+
+(* the "no residue" clause in the form C03 uses: after a syntax error or out-of-memory as many blocks are live
+   as before the call (indeed the same ones: parse_m_no_residue), and no release hit a block that was not live *)
+Corollary parse_m_no_residue_count t s0 : wf s0 ->
+  match parse_m t s0 with
+  | (MOk m, s') => live_count s' = length (muri_blocks m) + live_count s0
+  | (_, s') => live_count s' = live_count s0
+  end /\ bad_frees (snd (parse_m t s0)) = bad_frees s0.
+Proof.
+  intros W. pose proof (parse_m_no_residue t s0 W) as R. unfold live_count.
+  assert (Len : forall s, length (ms_live s) = length (live_ids s)) by (intros; unfold live_ids; rewrite map_length; reflexivity).
+  destruct (parse_m t s0) as [[m|pos|] s']; cbn [snd].
+  - destruct R as (_ & E & _ & _ & P). split; [|apply E]. rewrite !Len, (Permutation_length P), app_length. reflexivity.
+  - destruct R as (_ & E & P). split; [|apply E]. rewrite !Len. apply (Permutation_length P).
+  - destruct R as (_ & E & P & _). split; [|apply E]. rewrite !Len. apply (Permutation_length P).
+Qed.
